@@ -15,8 +15,6 @@ import (
 	"encoding/binary"
 	"errors"
 	"math/big"
-	"os"
-	"runtime/pprof"
 	"strconv"
 	"strings"
 	"time"
@@ -28,14 +26,7 @@ import (
 // C18: SIG(0). Any message can be signed; only untampered, timely messages verify;
 // Verify returns an error rather than panicking on malformed input of header size or more.
 
-func main() {
-	if f := os.Getenv("C18_PROF"); f != "" {
-		fh, _ := os.Create(f)
-		pprof.StartCPUProfile(fh)
-		defer pprof.StopCPUProfile()
-	}
-	Main(runC18)
-}
+func main() { Main(runC18) }
 
 // ---------------------------------------------------------------------------
 // keys (generated once per run through the library's own generator)
